@@ -3,6 +3,7 @@
 package c17
 
 import (
+	"sort"
 	"bufio"
 	"fmt"
 	"os"
@@ -102,6 +103,13 @@ var roots = []rootCfg{
 	{"empty", "root", ""},
 	{"relative-up", "root/sub", "../../root"},
 	{"relative-nested", ".", "root/sub"},
+	// roots that are pure chains of ".." (a locator started with -dir ..)
+	{"up", "root/sub", ".."},
+	{"up-slash", "root/sub", "../"},
+	{"dot-up", "root/sub", "./.."},
+	{"up-up", "root/sub/deeper", "../.."},
+	{"up-down-up", "root/sub", "../sub/.."},
+	{"up-to-base", "root", ".."},
 }
 
 func decorate(p string, variant int) string {
@@ -174,7 +182,7 @@ func pathFromIndex(i int, n int) (string, bool) {
 
 // Run is the check.
 func Run(c *core.Ctx) {
-	c.Note("rule", "paths: all sequences of <=N segments over {in.ecal,sub,.,..,'',..x,'a b',rootx,root} joined by '/' (N=4 quick, 6 thorough; exhaustive) x 6 decorations (plain, leading /, trailing /, doubled separators, ./ prefix, // both ends) x 13 root configurations, plus random longer paths with NUL/backslash variants and imports through the interpreter; non-trivial = distinct (root configuration, path) whose reference resolution lies outside the root (must fail) or inside the root on an existing file (must return that file's sentinel)")
+	c.Note("rule", "paths: all sequences of <=N segments over {in.ecal,sub,.,..,'',..x,'a b',rootx,root} joined by '/' (N=4 quick, 6 thorough; exhaustive) x 6 decorations (plain, leading /, trailing /, doubled separators, ./ prefix, // both ends) x 19 root configurations (absolute, relative, '.', '', and pure chains of '..'), plus the absolute paths of all existing files inside and outside the root in 7 spellings, random longer paths with NUL/backslash variants and imports through the interpreter; non-trivial = distinct (root configuration, path) whose reference resolution lies outside the root (must fail) or inside the root on an existing file (must return that file's sentinel)")
 	c.Note("exhaustive", "true")
 	if os.Getenv("VH_C17_STRACE_CHILD") == "" && !c.Quick() && !c.Replay() && c.Batch == 0 {
 		defer straceRun(c)
@@ -231,6 +239,32 @@ func Run(c *core.Ctx) {
 					if idx%50021 == 7 {
 						c.Sample("enum", map[string]interface{}{"root": rootStr, "cwd": cwdAbs, "path": p, "error": fmt.Sprint(err), "content": trunc(res)})
 					}
+				}
+			}
+		}
+		// absolute paths of files that exist (inside and outside the root), plain
+		// and decorated: whatever the root string is, an import path is taken
+		// relative to the root - the file it names as an absolute path is not
+		// the file below the root, so no content of it may come back
+		stream = "abs-" + rc.name
+		var sfiles []string
+		for f := range l.sentinels {
+			sfiles = append(sfiles, f)
+		}
+		sort.Strings(sfiles)
+		ai := 0
+		for _, f := range sfiles {
+			noext := strings.TrimSuffix(f, ".ecal")
+			for _, q := range []string{f, noext} {
+				first := strings.Index(q[1:], "/") + 1
+				forms := []string{q, strings.ReplaceAll(q, "/", "//"), q + "/", q[:first] + "/." + q[first:], q[:first] + "/sub/.." + q[first:], "/" + q, q + "/."}
+				for _, p := range forms {
+					ai++
+					if !c.Take(stream, ai) {
+						continue
+					}
+					res, err := il.Resolve(p)
+					l.judge(c, stream, ai, rc, rootStr, cwdAbs, p, res, err)
 				}
 			}
 		}
